@@ -671,6 +671,31 @@ theorem nested_extends_flat (spec : CtorSpec) (env : Env) (cbs : Callbacks) (w w
       rw [← h.2]
       exact runSubgraphs_forest env cbs _ _ _ _ hrs
 
+/-- **Failing nested calls.** Callbacks of any behaviour at any depth (`runForestE`: a failure anywhere
+    propagates out of every enclosing body and stops what would have followed): no callback is invoked more
+    often than it occurs in the tree — whether or not the outermost call fails. -/
+theorem nested_failing_at_most_once (ts : List TreeE) (w : World) (c : Nat) :
+    (runForestE ts w).2.count c ≤ w.count c + (idsFE ts).count c :=
+  runForestE_count_le ts w c
+
+/-- **Refinement.** If the nested call does not fail, it is exactly the successful model (`runForest`) on the
+    tree with the behaviours erased — so `nested_args_prescribed`, `nested_called_once`, … apply to it. -/
+theorem nested_ok_refines (ts : List TreeE) (w : World) (h : (runForestE ts w).1 = none) :
+    (runForestE ts w).2 = runForest (eraseF ts) w :=
+  runForestE_ok ts w h
+
+/-- Non-vacuity: a Loop body (callback 0) calling an If whose `else_branch` (1) returns a non-iterable: the
+    outermost call is a TypeError, body and else-branch were entered once, `then_branch` (2) never; with a
+    well-formed else-branch the call succeeds and all three were entered once. -/
+example :
+    let t (b : CbBehaviour) : TreeE := .node 0 [(f32 []).ty] (.returnsVars 2) [.node 1 [] b [], .node 2 [] (.returnsVars 1) []]
+    (runForestE [t .nonIterable] ⟨[], 0⟩).1 = some .typeError
+      ∧ ((runForestE [t .nonIterable] ⟨[], 0⟩).2.count 0, (runForestE [t .nonIterable] ⟨[], 0⟩).2.count 1,
+          (runForestE [t .nonIterable] ⟨[], 0⟩).2.count 2) = (1, 1, 0)
+      ∧ (runForestE [t (.returnsVars 1)] ⟨[], 0⟩).1 = none
+      ∧ (runForestE [t (.returnsVars 1)] ⟨[], 0⟩).2.count 2 = 1 := by
+  decide
+
 /-- Non-vacuity: a Loop body (callback 0, 3 arguments) containing an If (callbacks 1, 2) whose
     else-branch contains a Scan (callback 3, 2 arguments): four events, depth first, consecutive ids. -/
 example :
